@@ -182,9 +182,12 @@ func runSelfTestFor(prop, repo string, seed int, vdir string) map[string]any {
 	for _, r := range missed {
 		fmt.Printf("    self-test %s: %s (%s) %s\n", r.Status, r.ID, r.What, r.Detail)
 	}
+	seeded := runSeededFor(prop, repo, vdir)
+	refac := runRefactorsFor(prop, repo, vdir)
 	return map[string]any{
-		"variants": len(vs), "detected": counts["detected"], "missed": counts["missed"], "skipped": counts["skipped"], "errors": counts["error"],
-		"results": results, "wall_s": time.Since(start).Seconds(),
+		"refactorings": refac,
+		"variants":     len(vs), "detected": counts["detected"], "missed": counts["missed"], "skipped": counts["skipped"], "errors": counts["error"],
+		"results": results, "wall_s": time.Since(start).Seconds(), "seeded_corpus": seeded,
 		"note": "sensitivity self-test of the checker: each variant is a compile-clean edit of the current source applied as an in-memory overlay in a subprocess; a missed variant is a checker defect, never a property violation",
 	}
 }
@@ -235,4 +238,163 @@ func cmdSelfTest(args []string) int {
 		return 1
 	}
 	return 0
+}
+
+// runSeededFor re-runs the property's check against every seeded change filed for it under
+// /verif/seeded/<prop>-<n>/patch.diff (changes written by independent sub-agents, each
+// confirmed to break the property while compiling and passing the suite).  Each patch is
+// applied to a scratch copy of the repository tree under the system temp directory, which
+// is removed afterwards; /repo is never modified.
+func runSeededFor(prop, repo, vdir string) map[string]any {
+	dirs, _ := filepath.Glob(filepath.Join(vdir, "seeded", prop+"-*"))
+	sort.Strings(dirs)
+	type sres struct {
+		ID     string `json:"id"`
+		Status string `json:"status"`
+		Rule   string `json:"rule,omitempty"`
+	}
+	var out []sres
+	detected := 0
+	for _, d := range dirs {
+		id := filepath.Base(d)
+		patch := filepath.Join(d, "patch.diff")
+		if _, err := os.Stat(patch); err != nil {
+			continue
+		}
+		tmp, err := os.MkdirTemp("", "kadcheck-seeded-*")
+		if err != nil {
+			out = append(out, sres{ID: id, Status: "error: " + err.Error()})
+			continue
+		}
+		func() {
+			defer os.RemoveAll(tmp)
+			if err := copyTree(repo, tmp); err != nil {
+				out = append(out, sres{ID: id, Status: "error: " + err.Error()})
+				return
+			}
+			ap := exec.Command("git", "apply", "-p1", patch)
+			ap.Dir = tmp
+			if o, err := ap.CombinedOutput(); err != nil {
+				out = append(out, sres{ID: id, Status: "skipped: patch no longer applies (" + lastLine(string(o)) + ")"})
+				return
+			}
+			exe, _ := os.Executable()
+			cmd := exec.Command(exe, "check", "-prop", prop, "-tier", "quick", "-repo", tmp, "-noevidence")
+			cmd.Env = append(os.Environ(), "VERIF_DIR="+vdir, "VERIF_TIER=quick")
+			o, err := cmd.CombinedOutput()
+			code := 0
+			if ee, ok := err.(*exec.ExitError); ok {
+				code = ee.ExitCode()
+			}
+			if code == 1 {
+				detected++
+				rule := ""
+				for _, line := range strings.Split(string(o), "\n") {
+					if i := strings.Index(line, "violated "); i >= 0 {
+						rule = strings.Fields(line[i+9:])[0]
+						break
+					}
+				}
+				out = append(out, sres{ID: id, Status: "detected", Rule: rule})
+			} else {
+				out = append(out, sres{ID: id, Status: fmt.Sprintf("missed (exit %d)", code)})
+			}
+		}()
+	}
+	if len(out) > 0 {
+		fmt.Printf("  seeded corpus: %d changes, detected=%d\n", len(out), detected)
+	}
+	return map[string]any{"changes": len(out), "detected": detected, "results": out}
+}
+
+func copyTree(src, dst string) error {
+	return filepath.Walk(src, func(path string, info os.FileInfo, err error) error {
+		if err != nil {
+			return err
+		}
+		rel, _ := filepath.Rel(src, path)
+		if rel == ".git" {
+			if info.IsDir() {
+				return filepath.SkipDir
+			}
+			return nil
+		}
+		target := filepath.Join(dst, rel)
+		if info.IsDir() {
+			return os.MkdirAll(target, 0o755)
+		}
+		if !info.Mode().IsRegular() {
+			return nil
+		}
+		data, err := os.ReadFile(path)
+		if err != nil {
+			return err
+		}
+		return os.WriteFile(target, data, 0o644)
+	})
+}
+
+// runRefactorsFor applies every behaviour-preserving refactoring in refactors/*/ref*.diff to a
+// scratch copy of the tree and expects the property's check to stay silent (exit 0).
+func runRefactorsFor(prop, repo, vdir string) map[string]any {
+	patches, _ := filepath.Glob(filepath.Join(vdir, "refactors", "*", "*.diff"))
+	sort.Strings(patches)
+	type rres struct {
+		ID     string `json:"id"`
+		Status string `json:"status"`
+	}
+	out := make([]rres, len(patches))
+	sem := make(chan struct{}, 6)
+	var wg sync.WaitGroup
+	for i, patch := range patches {
+		wg.Add(1)
+		go func(i int, patch string) {
+			defer wg.Done()
+			sem <- struct{}{}
+			defer func() { <-sem }()
+			id := filepath.Base(filepath.Dir(patch)) + "/" + strings.TrimSuffix(filepath.Base(patch), ".diff")
+			tmp, err := os.MkdirTemp("", "kadcheck-refac-*")
+			if err != nil {
+				out[i] = rres{id, "error: " + err.Error()}
+				return
+			}
+			defer os.RemoveAll(tmp)
+			if err := copyTree(repo, tmp); err != nil {
+				out[i] = rres{id, "error: " + err.Error()}
+				return
+			}
+			ap := exec.Command("git", "apply", "-p1", patch)
+			ap.Dir = tmp
+			if o, err := ap.CombinedOutput(); err != nil {
+				out[i] = rres{id, "skipped: patch does not apply to this tree (" + lastLine(string(o)) + ")"}
+				return
+			}
+			exe, _ := os.Executable()
+			cmd := exec.Command(exe, "check", "-prop", prop, "-tier", "quick", "-repo", tmp, "-noevidence")
+			cmd.Env = append(os.Environ(), "VERIF_DIR="+vdir, "VERIF_TIER=quick")
+			_, err = cmd.CombinedOutput()
+			code := 0
+			if ee, ok := err.(*exec.ExitError); ok {
+				code = ee.ExitCode()
+			}
+			if code == 0 {
+				out[i] = rres{id, "silent"}
+			} else {
+				out[i] = rres{id, fmt.Sprintf("FALSE ALARM (exit %d)", code)}
+			}
+		}(i, patch)
+	}
+	wg.Wait()
+	silent, alarms := 0, 0
+	for _, r := range out {
+		if r.Status == "silent" {
+			silent++
+		} else if strings.HasPrefix(r.Status, "FALSE") {
+			alarms++
+		}
+	}
+	if len(out) > 0 {
+		fmt.Printf("  refactorings: %d behaviour-preserving changes, silent=%d false-alarms=%d\n", len(out), silent, alarms)
+	}
+	return map[string]any{"changes": len(out), "silent": silent, "false_alarms": alarms, "results": out}
 }
